@@ -7,6 +7,7 @@ import (
 	"os"
 	"strconv"
 	"strings"
+	"time"
 
 	"github.com/tidwall/geojson"
 	verifrt "github.com/tidwall/geojson/verifrt"
@@ -185,6 +186,7 @@ func c16Worker(args []string) {
 		prod2, prod3 = 30_000, 300
 	}
 	var maxPoints, maxPreempt, capped int
+	lastBeat := time.Now()
 	for si, sc := range scs {
 		if si%n != shard {
 			continue
@@ -230,8 +232,12 @@ func c16Worker(args []string) {
 		failed := false
 		check := func(x execResult, choices []int8) {
 			execs++
-			if execs%1000 == 0 {
-				o.beat() // progress marker: the no-progress watchdog must not depend on how loaded the machine is
+			if execs%1000 == 0 || time.Since(lastBeat) > 5*time.Second {
+				// progress marker: the no-progress watchdog measures whether executions
+				// complete (each is bounded by 2,000,000 scheduling points), not how
+				// many fit into its window on a loaded machine
+				o.beat()
+				lastBeat = time.Now()
 			}
 			o.evals++
 			o.trans += int64(len(x.points))
